@@ -140,13 +140,18 @@ bool PortManager::GenericUnPatchPort(PortClass *port) {
     return false;
 
   Universe *universe = port->GetUniverse();
-  m_broker->RemovePort(port);
   if (universe) {
+    // Ask the port first: if the plugin refuses, the port must stay patched
+    // to, and listed by, its universe.
+    if (!port->SetUniverse(NULL)) {
+      OLA_WARN << "Port " << port->UniqueId() << " refused to be unpatched";
+      return false;
+    }
     universe->RemovePort(port);
-    port->SetUniverse(NULL);
     OLA_INFO << "Unpatched " << port->UniqueId() << " from uni "
       << universe->UniverseId();
   }
+  m_broker->RemovePort(port);
   return true;
 }
 
